@@ -35,7 +35,11 @@ func (sc *Script) render(ob *Obligation, pre string, model bool) string {
 		b.WriteString(d)
 		b.WriteByte('\n')
 	}
-	for _, f := range sc.facts[:ob.NFacts] {
+	for i, f := range sc.facts[:ob.NFacts] {
+		// path slicing: facts emitted in blocks that cannot reach the obligation's block are irrelevant to it
+		if ob.Reach != nil && sc.factBlk[i] >= 0 && !ob.Reach[sc.factBlk[i]] {
+			continue
+		}
 		b.WriteString("(assert ")
 		b.WriteString(f)
 		b.WriteString(")\n")
